@@ -94,13 +94,35 @@ Silent(c) == \E l \in c.coll : l[1] = "byron"
 \* Two levels so that TLC's workers share the enumeration: an initial state
 \* fixes the obligations, its successors add every witness set.  `done` marks
 \* a complete case; the meta-properties speak about complete cases.
+\*
+\* Two slices.  "base": every combination of the five dimensions above; the
+\* inputs are a set (field ord = <<>>: the driver lists them in a fixed order).
+\* "ordered": 2..3 inputs of mixed lock kinds as a SEQUENCE -- the order in
+\* which the ledger sees them (sorted by output reference; the driver chooses
+\* the references so that the i-th lock is the i-th input) -- in every order,
+\* with every subset of the witnesses the owners have to supply: all present,
+\* exactly one owner missing at every position, and more.  The verdict is a
+\* function of the set (OrderIrrelevant below), so an implementation that
+\* stops looking after some input disagrees with the specification on one of
+\* the orders.
+Orders == UNION {SetToSeqs(S) : S \in UpTo(Locks, 2, 3)}
+RangeOf(o) == {o[i] : i \in 1..Len(o)}
+OwnVW(S) == {<<l[2], TRUE>> : l \in {x \in S : x[1] = "key"}}
+OwnBW(S) == {<<l[2], 0, TRUE>> : l \in {x \in S : x[1] = "byron"}}
+OrderedCases == UNION {{[ins |-> RangeOf(o), coll |-> {}, req |-> {}, vw |-> v, bw |-> b, ord |-> o] :
+                          v \in SUBSET OwnVW(RangeOf(o)), b \in SUBSET OwnBW(RangeOf(o))} : o \in Orders}
+
 VARIABLES c, done
 Init == /\ done = FALSE
-        /\ \E i \in InsSets, co \in CollSets, r \in ReqSets :
-              c = [ins |-> i, coll |-> co, req |-> r, vw |-> {}, bw |-> {}]
+        /\ \/ \E i \in InsSets, co \in CollSets, r \in ReqSets :
+                 c = [ins |-> i, coll |-> co, req |-> r, vw |-> {}, bw |-> {}, ord |-> <<>>]
+           \/ \E o \in Orders :
+                 c = [ins |-> RangeOf(o), coll |-> {}, req |-> {}, vw |-> {}, bw |-> {}, ord |-> o]
 Next == /\ ~done
         /\ done' = TRUE
-        /\ \E v \in VWSets, b \in BWSets : c' = [c EXCEPT !.vw = v, !.bw = b]
+        /\ IF c.ord = <<>>
+           THEN \E v \in VWSets, b \in BWSets : c' = [c EXCEPT !.vw = v, !.bw = b]
+           ELSE \E v \in SUBSET OwnVW(c.ins), b \in SUBSET OwnBW(c.ins) : c' = [c EXCEPT !.vw = v, !.bw = b]
 
 ----------------------------------------------------------------------------
 (* Meta-properties, evaluated for every case *)
@@ -156,14 +178,25 @@ ScriptInputsNeutral == done =>
 
 VerdictShape == done => (Accept(c) <=> Why(c) = {}) /\ Why(c) \subseteq {"badsig", "input", "collateral", "required"}
 
-Obligations == Cardinality(InsSets) * Cardinality(CollSets) * Cardinality(ReqSets)
-NumCases    == Obligations * Cardinality(VWSets) * Cardinality(BWSets)
+\* the order of the inputs never matters: every reordering of an ordered case
+\* has the same verdict, and exactly the owners' witnesses decide it
+OrderIrrelevant ==
+    (done /\ c.ord # <<>>) =>
+        /\ \A o \in SetToSeqs(c.ins) : Accept([c EXCEPT !.ord = o]) = Accept(c)
+        /\ Accept(c) <=> (c.vw = OwnVW(c.ins) /\ c.bw = OwnBW(c.ins))
+        /\ \A i \in 1..Len(c.ord) :      \* one owner missing, at any position: rejected
+              LET l == c.ord[i] IN
+              l # ScriptLock => ~Accept([c EXCEPT !.vw = OwnVW(c.ins \ {l}), !.bw = OwnBW(c.ins \ {l})])
+
+Obligations == Cardinality(InsSets) * Cardinality(CollSets) * Cardinality(ReqSets) + Cardinality(Orders)
+NumCases    == Cardinality(InsSets) * Cardinality(CollSets) * Cardinality(ReqSets) * Cardinality(VWSets) * Cardinality(BWSets)
+               + Cardinality(OrderedCases)
 \* POSTCONDITION: every combination was visited (and therefore emitted) once
 AllCasesVisited == TLCGet("distinct") = NumCases + Obligations
 
 ----------------------------------------------------------------------------
 Row(x) == [ins |-> SetToSeq(x.ins), coll |-> SetToSeq(x.coll), req |-> SetToSeq(x.req),
-           vw |-> SetToSeq(x.vw), bw |-> SetToSeq(x.bw),
+           vw |-> SetToSeq(x.vw), bw |-> SetToSeq(x.bw), ord |-> x.ord,
            accept |-> Accept(x), silent |-> Silent(x), why |-> SetToSeq(Why(x))]
 
 \* Each complete case is printed once, with the verdict, when TLC checks the
